@@ -302,7 +302,9 @@ Inv_C09s(o) ==
 (* the channel keeps running until everything in flight has ended, and then ends *)
 Inv_C10s(o) ==
   /\ BadOf(o, "C10") = {}
-  /\ (AtQ(o) /\ o.eof = "seen" /\ o.faults = <<>> /\ ~o.panic /\ o.tracked = {} /\ ~o.f6) => o.stream # "live"
+  \* the peer closed (whether or not the channel has looked yet), nothing is in flight, everything that could wake
+  \* the channel has happened: the stream has ended
+  /\ (AtQ(o) /\ o.eof # "none" /\ o.faults = <<>> /\ ~o.panic /\ o.tracked = {} /\ ~o.f6) => o.stream # "live"
 (* server-side wake-ups: at a settle point with the sink writable everything pushed was read *)
 Inv_C02s(o) ==
   /\ ~o.spin
